@@ -374,6 +374,11 @@ impl PeerSession {
         Ok((PacketView::from_packet(packet), PeerSession(session)))
     }
 
+    /// A "session" with keys of the caller's choice (nobody negotiated them with the node).
+    pub fn with_keys(encryption_key: [u8; 16], decryption_key: [u8; 16]) -> PeerSession {
+        PeerSession(Session::verif_with_keys(encryption_key, decryption_key))
+    }
+
     /// Like `answer_challenge`, with arbitrary bytes in the place of the id-signature.
     pub fn answer_challenge_with_sig(
         remote: &NodeContact,
